@@ -74,6 +74,8 @@ pub enum Ev {
     Crash { node: u32, inc: u32 },
     Stop { node: u32, inc: u32 },
     NodeExit { node: u32, inc: u32, fatal: bool, msg: String },
+    /// the node entered its Raft loop (a joining learner does so only after its join succeeded)
+    LoopStart { node: u32, inc: u32 },
     Fault { desc: String },
     Phase { name: String },
     // ---- state machine wrapper ----
@@ -84,6 +86,12 @@ pub enum Ev {
     // ---- clients ----
     Invoke { op: u64, client: u32, node: u32, what: ClientOp },
     Return { op: u64, result: ClientResult },
+    // ---- watch streams (C24) ----
+    WatchRegister { wid: u64, node: u32, inc: u32, key: Vec<u8>, is_prefix: bool, applied_at_registration: u64 },
+    /// kind: put | delete | canceled | progress
+    WatchRecv { wid: u64, kind: &'static str, key: Vec<u8>, value: Vec<u8>, revision: u64 },
+    /// the consumer stopped reading: dropped (it unregistered itself) | closed (stream ended)
+    WatchEnd { wid: u64, why: &'static str },
     // ---- membership watch ----
     Membership { node: u32, voters: Vec<u32>, learners: Vec<u32>, index: u64 },
 }
@@ -215,6 +223,7 @@ pub fn ev_json(r: &Rec) -> Value {
         Ev::Crash { node, inc } => json!({"crash": node, "inc": inc}),
         Ev::Stop { node, inc } => json!({"stop": node, "inc": inc}),
         Ev::NodeExit { node, inc, fatal, msg } => json!({"node_exit": node, "inc": inc, "fatal": fatal, "msg": msg}),
+        Ev::LoopStart { node, inc } => json!({"loop_start": node, "inc": inc}),
         Ev::Fault { desc } => json!({"fault": desc}),
         Ev::Phase { name } => json!({"phase": name}),
         Ev::Apply { node, inc, index, term, cmd, ok } => {
@@ -229,6 +238,11 @@ pub fn ev_json(r: &Rec) -> Value {
         Ev::Purge { node, inc, upto, commit_known } => json!({"purge": node, "inc": inc, "upto": upto, "commit": commit_known}),
         Ev::Invoke { op, client, node, what } => json!({"invoke": op, "client": client, "node": node, "op": op_json(what)}),
         Ev::Return { op, result } => json!({"return": op, "result": result_json(result)}),
+        Ev::WatchRegister { wid, node, inc, key, is_prefix, applied_at_registration } => {
+            json!({"watch_register": wid, "node": node, "inc": inc, "key": sb(key), "prefix": is_prefix, "applied": applied_at_registration})
+        }
+        Ev::WatchRecv { wid, kind, key, value, revision } => json!({"watch_recv": wid, "kind": kind, "key": sb(key), "v": sb(value), "rev": revision}),
+        Ev::WatchEnd { wid, why } => json!({"watch_end": wid, "why": why}),
         Ev::Membership { node, voters, learners, index } => {
             json!({"membership": node, "voters": voters, "learners": learners, "index": index})
         }
